@@ -204,7 +204,10 @@ fn main() {
                 let o = scen::GraphOpts {
                     weights: if family == "reload" || family == "ids" { scen::W_RELOAD } else if family == "iso" || family == "isorich" || family == "idshi" { scen::W_ISO } else if family == "migrate" { scen::W_CONFLICT } else { scen::W_DOC },
                     twin_start: false,
-                    base_calls: vec![],
+                    base_calls: if family == "spans" {
+                        vec![serde_json::json!({"fn":"put_object","obj":[0,0],"key":"t","ty":"text"}),
+                             serde_json::json!({"fn":"splice_text","obj":[1,1],"idx":0,"del":0,"toks":["a","b"]})]
+                    } else { vec![] },
                     readat: if family == "histdoc" { 10 } else if family == "reload" { 6 } else { 0 },
                     reload_before_readat: family == "reload",
                     rollback_pct: if family == "rollback" { 45 } else { 0 },
@@ -289,6 +292,28 @@ fn main() {
                     obs: ObsLevel::View,
                     prof,
                     enc,
+                };
+                scen::graph_scenario(i, &mut srng, &o, family)
+            }
+            "longgraph" => {
+                // C10: histories long enough for the change graph's clock cache (every 16th change), fresh actors
+                // that sort before the existing ones, transactions that commit nothing, retrievals for many have-sets
+                let o = scen::GraphOpts {
+                    weights: [40, 43, 47, 60, 72, 78, 80, 84, 88, 90],
+                    twin_start: false,
+                    base_calls: vec![],
+                    readat: 0,
+                    reload_before_readat: false,
+                    rollback_pct: 18,
+                    diffs: 0,
+                    log_patches: false,
+                    steps: 60 + srng.below(40),
+                    max_reps: 4,
+                    max_changes: 48,
+                    dup_actors: false,
+                    obs: ObsLevel::Graph,
+                    prof: Profile::graph(),
+                    enc: automerge::TextEncoding::UnicodeCodePoint,
                 };
                 scen::graph_scenario(i, &mut srng, &o, family)
             }
